@@ -172,6 +172,12 @@ func (q *workQueue) done() {
 	q.mu.Unlock()
 }
 
+func (q *workQueue) isStopped() bool {
+	q.mu.Lock()
+	defer q.mu.Unlock()
+	return q.stopped
+}
+
 func (q *workQueue) stop() {
 	q.mu.Lock()
 	q.stopped = true
@@ -257,6 +263,9 @@ func (p *Program) exploreOnce(entry *ssa.Function) (*Result, error) {
 			wk := &worker{q: q, nworkers: cfg.Workers}
 			for {
 				var st *State
+				if q.isStopped() {
+					break
+				}
 				if n := len(wk.local); n > 0 {
 					st = wk.local[n-1]
 					wk.local[n-1] = nil
